@@ -95,7 +95,11 @@ def try_shrink(mod, case, res, budget=120):
     improved = True
     while improved and runs < budget:
         improved = False
-        for cand in mod.shrink(case):
+        try:
+            cands = list(mod.shrink(case))
+        except Exception:      # pseudo-cases of one-off passes have nothing to shrink
+            break
+        for cand in cands:
             runs += 1
             if runs > budget:
                 break
